@@ -220,7 +220,7 @@ TransactAll(st, trades, cs) ==
 \* result: [st, out \in {"ok","broke","error"}, pre, post, trades, interest, comm]
 RebalanceF(st, req, t) ==
     LET a == AccrueF(st, t, TRUE)
-        blank == [pre |-> NaN, post |-> NaN, trades |-> <<>>, comm |-> Zero, edge |-> {}]
+        blank == [pre |-> NaN, post |-> NaN, trades |-> <<>>, comm |-> Zero, edge |-> {}, prest |-> st, postst |-> st]
     IN  IF a.out = "error" THEN [st |-> a.st, out |-> "error", interest |-> Zero] @@ blank
         ELSE
         LET v == ValueF(a.st, TRUE)
@@ -231,8 +231,10 @@ RebalanceF(st, req, t) ==
                 ELSE
                 LET x == TransactAll(v.st, m.trades, DOMAIN m.trades)
                     p == ValueF(x.st, TRUE)
+                \* prest / postst: the account as snapshotted before and after the trades (context_pre / context_post)
                 IN  [st |-> p.st, out |-> p.out, interest |-> a.amount, pre |-> v.nlv,
-                     post |-> p.nlv, trades |-> m.trades, comm |-> x.comm, edge |-> m.edge]
+                     post |-> p.nlv, trades |-> m.trades, comm |-> x.comm, edge |-> m.edge,
+                     prest |-> v.st, postst |-> p.st]
 
 -----------------------------------------------------------------------------
 InitLedger == [bid |-> [c \in C |-> NaN], ask |-> [c \in C |-> NaN], alive |-> [c \in C |-> TRUE],
